@@ -7,6 +7,7 @@ row creation, restore / remember / restore_state; sibling agreement of factors w
 assignment (R-DEF); linking under preserve_stream_pos; H-CUR.
 """
 import ast
+from sa.canon import U
 from sa.world import get_world
 from sa import dwconf, layout, expr, paths, streams, dispatch, literals, hrules
 from sa.absint import Ctor, Obj, FuncV, Unknown
@@ -134,8 +135,8 @@ def check_entries(ctx, w):
            msg='CIE/FDE discrimination differs from DWARF §6.4.1 / LSB')
     ifs = [n for n in f.node.body if isinstance(n, ast.If)]
     zero = [n for n in ifs if expr.cond_str(n.test, env) == expr.spec_cond('for_eh_frame and entry_length == 0')]
-    ctx.ob('E-i', f.construct, 'length 0 in .eh_frame is the terminator', len(zero) == 1 and [ast.unparse(s) for s in zero[0].body] == ['return ZERO(offset)'])
-    isfor = [n for n in ifs if expr.cond_str(n.test, env) == 'T(for_eh_frame)' and any('is_CIE' in ast.unparse(s) for s in n.body)]
+    ctx.ob('E-i', f.construct, 'length 0 in .eh_frame is the terminator', len(zero) == 1 and [U(s) for s in zero[0].body] == ['return ZERO(offset)'])
+    isfor = [n for n in ifs if expr.cond_str(n.test, env) == 'T(for_eh_frame)' and any('is_CIE' in U(s) for s in n.body)]
     ctx.ob('E-i', f.construct, 'discrimination selected by the section kind', len(isfor) == 1)
     ctx.ob('E-i', f.construct, 'end = offset + length + initial length size',
            tr.get('end_offset') == [('=', expr.spec_nf('offset + length + entry_structs.initial_length_field_size()'))], got=tr.get('end_offset'))
@@ -167,7 +168,7 @@ def check_entries(ctx, w):
     whiles = [n for n in ast.walk(h.node) if isinstance(n, ast.While)]
     ctx.ob('E-i', h.construct, 'entries in section order until the section size',
            tr.get('offset') == [('=', '0'), ('=', 'tell(stream)')] and len(whiles) == 1 and expr.cond_str(whiles[0].test, henv) == expr.spec_cond('offset < size') and
-           [ast.unparse(s) for s in whiles[0].body] == ['entries.append(self._parse_entry_at(offset))', 'offset = self.stream.tell()'], got=tr.get('offset'))
+           [U(s) for s in whiles[0].body] == ['entries.append(self._parse_entry_at(offset))', 'offset = self.stream.tell()'], got=tr.get('offset'))
 
 
 def check_tables(ctx, w):
@@ -199,7 +200,7 @@ def check_tables(ctx, w):
     got = {}
     if dicts:
         for k, v in zip(dicts[0].keys, dicts[0].values):
-            got[k.value] = ast.unparse(v).replace('\n', '')
+            got[k.value] = U(v).replace('\n', '')
     want = {b'z': "entry_structs.Dwarf_uleb128('length')", b'L': "entry_structs.Dwarf_uint8('LSDA_encoding')", b'R': "entry_structs.Dwarf_uint8('FDE_encoding')", b'S': 'True'}
     for k, v in sorted(want.items()):
         ctx.ob('G-TAB', f.construct, 'augmentation letter %r' % k, got.get(k) == v, got=got.get(k), expected=v, msg='augmentation data field for the letter differs from the LSB')
@@ -208,7 +209,7 @@ def check_tables(ctx, w):
         'self._eh_encoding_to_field(entry_structs).items()' in p
     ctx.ob('G-TAB', f.construct, "letter b'P': u8 encoding + pointer by encoding & 0x0f", ok, got=p[:160])
     ctx.ob('G-TAB', f.construct, 'no other letters', set(got) == set(want) | {b'P'}, got=sorted(got))
-    src = ast.unparse(f.node)
+    src = U(f.node)
     ctx.ob('G-TAB', f.construct, 'unknown letter stops struct building; raw bytes still taken by length',
            'except KeyError:' in src and src[src.index('except KeyError:'):src.index('except KeyError:') + 40].split() [2] == 'break' and 'aug_bytes = self._read_augmentation_data(entry_structs)' in src and 'self.stream.seek(offset)' in src)
     ctx.ob('G-TAB', f.construct, "data requires the 'z' prefix", "assert augmentation.startswith(b'z')" in src)
@@ -216,7 +217,7 @@ def check_tables(ctx, w):
     ctx.ob('G-TAB', f.construct, 'struct parsed at the position after the header', tr.get('offset') == [('=', 'tell(stream)')] and
            'aug_dict.update(struct_parse(struct, self.stream, offset))' in src, got=tr.get('offset'))
     g = w.model.func(CF, 'CallFrameInfo._read_augmentation_data')
-    src = ast.unparse(g.node)
+    src = U(g.node)
     ctx.ob('G-TAB', g.construct, 'ULEB length then that many bytes (eh_frame only)', "entry_structs.Dwarf_uleb128('length')" in src and
            'return self.stream.read(augmentation_data_length)' in src and "if not self.for_eh_frame:\n        return b''" in src)
     # pc-relative adjustments
@@ -230,9 +231,9 @@ def check_tables(ctx, w):
            got=ptr, msg='pc-relative pointers are relative to the address of the pointer field itself')
     ops = [o.t() for o in streams.func_ops(h.node, henv) if o.kind == 'parse']
     ctx.ob('G-TAB', h.construct, 'pointer parsed at the field offset with the basic encoding', len(ops) == 1 and ops[0][3] == 'stream_offset' and
-           "formats[basic_encoding]('LSDA_pointer')" in ast.unparse(h.node), got=ops)
+           "formats[basic_encoding]('LSDA_pointer')" in U(h.node), got=ops)
     chains = dispatch.find_chain(h.node, dispatch.subject_name('modifier'), consts=None, min_branches=2)
-    src = ast.unparse(h.node)
+    src = U(h.node)
     ctx.ob('G-TAB', h.construct, 'modifiers: absptr, pcrel, else rejected', "if modifier == DW_EH_encoding_flags['DW_EH_PE_absptr']:" in src and
            "elif modifier == DW_EH_encoding_flags['DW_EH_PE_pcrel']:" in src and 'assert False' in src)
     k = w.model.func(CF, 'CallFrameInfo._parse_fde_header')
@@ -241,7 +242,7 @@ def check_tables(ctx, w):
     ctx.ob('G-TAB', k.construct, 'initial location offset = tell() after the minimal header', tr.get('initial_location_offset') == [('=', 'tell(stream)')], got=tr.get('initial_location_offset'))
     il = tr.get('result[initial_location]')
     ctx.ob('G-TAB', k.construct, 'pc-relative initial location: + section address + field offset', il == [('+=', expr.spec_nf('address + initial_location_offset'))], got=il)
-    src = ast.unparse(k.node)
+    src = U(k.node)
     ctx.ob('G-TAB', k.construct, 'FDE header = initial length, CIE pointer, then location and range in the CIE\'s FDE encoding',
            "fields = [entry_structs.Dwarf_initial_length('length'), entry_structs.Dwarf_offset('CIE_pointer')]" in src and
            "fields.append(formats[basic_encoding]('initial_location'))\n    fields.append(formats[basic_encoding]('address_range'))" in src.replace('        ', '    ') and
@@ -264,7 +265,7 @@ def check_split(ctx, w):
     whiles = [n for n in ast.walk(f.node) if isinstance(n, ast.While)]
     loop = whiles[0]
     ctx.ob('G-SIG', f.construct, 'opcode byte at offset; offset = tell() after each instruction; until end_offset',
-           ast.unparse(loop.body[0]) == 'opcode = struct_parse(structs.the_Dwarf_uint8, self.stream, offset)' and ast.unparse(loop.body[-1]) == 'offset = self.stream.tell()'
+           U(loop.body[0]) == 'opcode = struct_parse(structs.the_Dwarf_uint8, self.stream, offset)' and U(loop.body[-1]) == 'offset = self.stream.tell()'
            and expr.cond_str(loop.test, env) == expr.spec_cond('offset < end_offset'))
     top = [s for s in loop.body if isinstance(s, ast.If)]
     if len(top) != 1:
@@ -283,18 +284,18 @@ def check_split(ctx, w):
         elif k2 is not None:
             keys, subj = k2, 'opcode'
         else:
-            raise AnalysisError('G-SIG', f.construct, 'test not on primary/opcode: %s' % ast.unparse(t))
+            raise AnalysisError('G-SIG', f.construct, 'test not on primary/opcode: %s' % U(t))
         sig = []
         for st in node.body:
-            if isinstance(st, ast.Assign) and ast.unparse(st.targets[0]) == 'args' and isinstance(st.value, ast.List):
+            if isinstance(st, ast.Assign) and U(st.targets[0]) == 'args' and isinstance(st.value, ast.List):
                 for el in st.value.elts:
                     if isinstance(el, ast.Name) and el.id == 'primary_arg':
                         sig.append('low6')
-                    elif isinstance(el, ast.Call) and dispatch.callee_name(el) == 'struct_parse' and len(el.args) == 2 and ast.unparse(el.args[1]) == 'self.stream':
+                    elif isinstance(el, ast.Call) and dispatch.callee_name(el) == 'struct_parse' and len(el.args) == 2 and U(el.args[1]) == 'self.stream':
                         a = expr.nfs(el.args[0], env)
                         sig.append(ATOM.get(a, a))
                     else:
-                        sig.append('?' + ast.unparse(el))
+                        sig.append('?' + U(el))
         for k in keys:
             got.setdefault((subj, k), sig)
         if len(node.orelse) == 1 and isinstance(node.orelse[0], ast.If):
@@ -309,13 +310,13 @@ def check_split(ctx, w):
         if key in got and name in OPERANDS:
             ctx.ob('G-SIG', f.construct, name, got[key] == OPERANDS[name], got=got[key], expected=OPERANDS[name],
                    msg='operands differ from DWARF 5 §7.24', sample='%s operands %s' % (name, OPERANDS[name]))
-    ctx.ob('G-SIG', f.construct, 'unknown opcode rejected', else_body is not None and 'dwarf_assert(False' in ' '.join(ast.unparse(s) for s in else_body))
-    ctx.ob('G-SIG', f.construct, 'instruction recorded with opcode and args', 'instructions.append(CallFrameInstruction(opcode=opcode, args=args))' in ast.unparse(loop))
+    ctx.ob('G-SIG', f.construct, 'unknown opcode rejected', else_body is not None and 'dwarf_assert(False' in ' '.join(U(s) for s in else_body))
+    ctx.ob('G-SIG', f.construct, 'instruction recorded with opcode and args', 'instructions.append(CallFrameInstruction(opcode=opcode, args=args))' in U(loop))
     g = w.model.func(CF, 'instruction_name')
     genv = expr.FEnv(g.node, params=('opcode',))
-    rp = [([(expr.cond_str(t, genv), pol) for t, pol in c], expr.nfs(r, genv)) for c, r, p in paths.returns_with_conds(g.node)]
-    want = [([(expr.spec_cond('opcode & _PRIMARY_MASK == 0'), True)], 'index(_OPCODE_NAME_MAP,opcode)'),
-            ([(expr.spec_cond('opcode & _PRIMARY_MASK == 0'), False)], expr.spec_nf('_OPCODE_NAME_MAP[opcode & _PRIMARY_MASK]'))]
+    rp = [([expr.CP(expr.cond_str(t, genv), pol) for t, pol in c], expr.nfs(r, genv)) for c, r, p in paths.returns_with_conds(g.node)]
+    want = [([expr.CP(expr.spec_cond('opcode & _PRIMARY_MASK == 0'), True)], 'index(_OPCODE_NAME_MAP,opcode)'),
+            ([expr.CP(expr.spec_cond('opcode & _PRIMARY_MASK == 0'), False)], expr.spec_nf('_OPCODE_NAME_MAP[opcode & _PRIMARY_MASK]'))]
     ctx.ob('G-SIG', g.construct, 'name by the primary bits when set, else by the whole opcode', rp == want, got=rp, expected=want)
 
 
@@ -346,7 +347,7 @@ def check_interp(ctx, w):
         if b is None:
             continue
         mod = ast.Module(body=b.body, type_ignores=[])
-        src = [ast.unparse(s).replace('\n', '') for s in b.body]
+        src = [U(s).replace('\n', '') for s in b.body]
         used = set(n.slice.value for n in ast.walk(mod) if isinstance(n, ast.Subscript) and isinstance(n.slice, ast.Constant) and
                    n.slice.value in (CAF, DAF))
         factors[name] = used
@@ -365,7 +366,7 @@ def check_interp(ctx, w):
             got = tr.get('cur_line[cfa]')
             ctx.ob('G-INT', f.construct, name + ' CFA rule', got == [val], got=got, expected=val, msg='CFA rule constructed differs from §6.4.2')
         else:
-            asg = [s for s in b.body if isinstance(s, ast.Assign) and isinstance(s.targets[0], ast.Subscript) and ast.unparse(s.targets[0]) == 'cur_line[instr.args[0]]']
+            asg = [s for s in b.body if isinstance(s, ast.Assign) and isinstance(s.targets[0], ast.Subscript) and U(s.targets[0]) == 'cur_line[instr.args[0]]']
             got = expr.nfs(asg[0].value, env).replace('RegisterRule.', '') if len(asg) == 1 else None
             got = got.replace('UNDEFINED(RegisterRule)', 'UNDEFINED') if got else got
             want = val[1]
@@ -375,16 +376,16 @@ def check_interp(ctx, w):
     # restore
     for name in ('DW_CFA_restore', 'DW_CFA_restore_extended'):
         b = br.get(name)
-        src = ' '.join(ast.unparse(s) for s in b.body) if b else ''
+        src = ' '.join(U(s) for s in b.body) if b else ''
         ok = 'if instr.args[0] in last_line_in_CIE:' in src and 'cur_line[instr.args[0]] = last_line_in_CIE[instr.args[0]]' in src and \
             'cur_line.pop(instr.args[0], None)' in src and 'isinstance(self, FDE)' in src
         ctx.ob('G-INT', f.construct, name + ' restores the rule of the CIE initial instructions (or removes it)', ok)
     b = br.get('DW_CFA_remember_state')
-    ctx.ob('G-INT', f.construct, 'remember_state pushes a deep copy', b is not None and [ast.unparse(s) for s in b.body] == ['line_stack.append(copy.deepcopy(cur_line))'])
+    ctx.ob('G-INT', f.construct, 'remember_state pushes a deep copy', b is not None and [U(s) for s in b.body] == ['line_stack.append(copy.deepcopy(cur_line))'])
     b = br.get('DW_CFA_restore_state')
     ctx.ob('G-INT', f.construct, 'restore_state pops the rules and keeps the current location', b is not None and
-           [ast.unparse(s) for s in b.body] == ["pc = cur_line['pc']", 'cur_line = line_stack.pop()', "cur_line['pc'] = pc"])
-    src = ast.unparse(f.node)
+           [U(s) for s in b.body] == ["pc = cur_line['pc']", 'cur_line = line_stack.pop()', "cur_line['pc'] = pc"])
+    src = U(f.node)
     ctx.ob('G-INT', f.construct, 'FDE starts from the last row of the CIE at its initial location',
            'cur_line = copy.copy(last_line_in_CIE)' in src and "cur_line['pc'] = self['initial_location']" in src and 'cie_decoded_table = cie.get_decoded()' in src)
     ctx.ob('G-INT', f.construct, 'final row appended when it carries a rule', "if cur_line['cfa'].reg is not None or len(cur_line) > 2:\n        table.append(cur_line)" in src)
@@ -433,7 +434,7 @@ def _isinstance_facts(path):
                 neg = not neg
             if isinstance(t, ast.Call) and isinstance(t.func, ast.Name) and t.func.id == 'isinstance' and len(t.args) == 2 and \
                     isinstance(t.args[1], ast.Name):
-                facts.append((ast.unparse(t.args[0]), t.args[1].id, pol != neg))
+                facts.append((U(t.args[0]), t.args[1].id, pol != neg))
     return facts
 
 
@@ -537,7 +538,7 @@ def _correlated(func, name):
     def walk(stmts, conds):
         for st in stmts:
             if isinstance(st, ast.If):
-                c = ast.unparse(st.test)
+                c = U(st.test)
                 walk(st.body, conds + [(c, True)])
                 walk(st.orelse, conds + [(c, False)])
                 for x in ast.walk(st.test):
@@ -586,11 +587,11 @@ def _correlated(func, name):
 def check_link(ctx, w):
     f = w.model.func(CF, 'CallFrameInfo._parse_cie_for_fde')
     withs = [n for n in ast.walk(f.node) if isinstance(n, ast.With)]
-    ok = len(withs) == 1 and ast.unparse(withs[0].items[0].context_expr) == 'preserve_stream_pos(self.stream)' and \
-        [ast.unparse(s) for s in withs[0].body] == ['return self._parse_entry_at(cie_offset)']
+    ok = len(withs) == 1 and U(withs[0].items[0].context_expr) == 'preserve_stream_pos(self.stream)' and \
+        [U(s) for s in withs[0].body] == ['return self._parse_entry_at(cie_offset)']
     ctx.ob('W-LINK', f.construct, 'CIE parsed under preserve_stream_pos', ok, msg='parsing the CIE of an FDE must not disturb the position of the FDE parse')
     g = w.model.func(CF, 'CallFrameInfo._parse_entry_at')
-    src = ast.unparse(g.node)
+    src = U(g.node)
     ctx.ob('W-LINK', g.construct, 'entry cache keyed by offset', 'if offset in self._entry_cache:' in src and 'self._entry_cache[offset] = entry' in src and
            'entry = self._entry_cache[offset]' in src)
     ctx.ob('W-LINK', g.construct, 'cache hit skips exactly the entry extent',
@@ -607,11 +608,11 @@ def check_link(ctx, w):
     tr = expr.assign_trace(k.node, expr.FEnv(k.node))
     ctx.ob('W-LINK', k.construct, 'decoded once', tr.get('self._decoded_table') == [('=', '_decode_CFI_table(self)')])
     di = w.model.func('dwarf/dwarfinfo.py', 'DWARFInfo.CFI_entries')
-    src = ast.unparse(di.node)
+    src = U(di.node)
     ctx.ob('W-LINK', di.construct, '.debug_frame stream/size/address', 'CallFrameInfo(stream=self.debug_frame_sec.stream, size=self.debug_frame_sec.size, '
            'address=self.debug_frame_sec.address, base_structs=self.structs)' in src)
     di = w.model.func('dwarf/dwarfinfo.py', 'DWARFInfo.EH_CFI_entries')
-    src = ast.unparse(di.node)
+    src = U(di.node)
     ctx.ob('W-LINK', di.construct, '.eh_frame stream/size/address, eh mode', 'CallFrameInfo(stream=self.eh_frame_sec.stream, size=self.eh_frame_sec.size, '
            'address=self.eh_frame_sec.address, base_structs=self.structs, for_eh_frame=True)' in src)
 
